@@ -12,7 +12,7 @@ TRUSTED = [
     'predecessors of t (which are nodes) in edge insertion order; nx.dfs_tree(g) has exactly the nodes '
     'of g (bounded conformance in contracts/b_search.py)',
     'uuid.uuid4() values are pairwise distinct, so every generated key "<name>-<uuid>" differs from all '
-    'keys generated before and from the literal "results"',
+    'keys generated before and from the literal "results"; an f-string without uuid.uuid4() is an arbitrary string',
     'dask graph semantics (a tuple with a callable head is a task, strings equal to keys are references) '
     'is outside this contract: bounded check in contracts/b_search.py',
 ]
@@ -34,6 +34,8 @@ def _symbolic():
     sinks_f = z3.Function('g_sinks', G.sort(), ST.sort())
     preds_f = z3.Function('g_preds', G.sort(), task.sort(), ST.sort())
     graph_f = z3.Function('wf_graph', wf.sort(), G.sort())
+    uuid_key = z3.Function('is_uuid_key', TStr.sort(), z3.BoolSort())
+    M.intrinsics['is_uuid_key'] = lambda ex, st, a, kw, n: Val(TBool, uuid_key(ex.to_term(a[0], TStr, st)))
 
     def is_node(g, t):
         q = z3.Int(sym.fresh_name('q'))
@@ -109,9 +111,15 @@ def _symbolic():
     @M.intrinsic('fstring')
     def _fstring(ex, st, args, kwargs, node):
         """f'{task.name}-{uuid.uuid4()}': a key different from every key issued so far and from 'results'"""
+        import ast as _ast
+        parts = [v.value for v in args[0].values if isinstance(v, _ast.FormattedValue)]
+        if not any(_ast.unparse(v).replace(' ', '') == 'uuid.uuid4()' for v in parts):
+            # a key that is not built from a fresh uuid4: an arbitrary string (may collide with any other key)
+            return Val(TStr, TStr.fresh('somekey'))
         k = TStr.fresh('uuidkey')
         ids = st.env.get('ids')
         st.assume(k != sym.str_lit('results'))
+        st.assume(uuid_key(k))
         if isinstance(ids, MDict):
             t = z3.Const(sym.fresh_name('t'), task.sort())
             st.assume(z3.ForAll([t], z3.Implies(ids.has(t), z3.Select(ids.arrs[0], t) != k),
@@ -164,6 +172,9 @@ IDS_OK = [
     f'all(implies(p != q, ids[{NODES}[p]] != ids[{NODES}[q]])'
     f'    for p in range(len({NODES})) for q in range(len({NODES})))',
     "ids[sinks_of(self)[0]] == 'results'",
+    # every other key contains a fresh uuid4: unique across workflows too (a nested workflow handed to the same
+    # scheduler by call_workflow must not collide with the keys of its parent)
+    f"all(implies(ids[{NODES}[p]] != 'results', is_uuid_key(ids[{NODES}[p]])) for p in range(len({NODES})))",
 ]
 
 M.contract(
@@ -177,6 +188,7 @@ M.contract(
             f'all({NODES}[p] in ids for p in range(k0))',
             f'all(implies(p != q, ids[{NODES}[p]] != ids[{NODES}[q]]) for p in range(k0) for q in range(k0))',
             f"all(ids[{NODES}[p]] != 'results' for p in range(k0))",
+            f"all(is_uuid_key(ids[{NODES}[p]]) for p in range(k0))",
         ]),
         Loop(counter='k2', inv=IDS_OK + [
             # the same facts seen through the dfs order (dfs_tree has exactly the nodes of the graph)
